@@ -9,6 +9,7 @@ import (
 	"fmt"
 	"math"
 	"runtime"
+	"strings"
 	"sync"
 	"sync/atomic"
 	"time"
@@ -286,7 +287,133 @@ func init() {
 			}
 		}
 		ctx.Res.Extra["stress_rounds_failed"] = bad
+		// many gauges in one scope, each updated, one pass: every gauge's last update is delivered, once
+		for _, n := range []int{1, 2, 15, 16, 17, 18, 31, 32, 33, 40, 100, 257} {
+			for _, cached := range []bool{false, true} {
+				cs := map[string]interface{}{"many_gauges": n, "cached": cached}
+				ctx.Case(cs, "", "many-gauges-in-one-scope", "")
+				if f := c02Many(n, cached); f != "" {
+					ctx.Fail("delivered_values_are_updates_and_fresh", f, cs, nil)
+				}
+			}
+		}
+		// a gauge is being registered in the same scope (the first-use call holds the scope's gauge lock
+		// inside the reporter's Allocate) while the first pass after the last update runs
+		for _, cached := range []bool{true} {
+			cs := map[string]interface{}{"registration_during_pass": true, "cached": cached}
+			ctx.Case(cs, "", "registration-overlapping-the-pass", "")
+			if f := c02RegDuringPass(); f != "" {
+				ctx.Fail("delivered_values_are_updates_and_fresh", f, cs, nil)
+			}
+		}
 	}
+}
+
+// c02Many: n gauges in one scope; two updates each, a pass, a third update for the odd ones, a pass.
+func c02Many(n int, cached bool) string {
+	log := &Log{}
+	opts := tally.ScopeOptions{OmitCardinalityMetrics: true}
+	if cached {
+		opts.CachedReporter = &RecCached{L: log, Caps: caps{true, true}}
+	} else {
+		opts.Reporter = &RecReporter{L: log, Caps: caps{true, true}}
+	}
+	root, closer := tally.VerifNewRootScope(opts, 0, 1)
+	defer closer.Close()
+	sc := root.SubScope("many")
+	gs := make([]tally.Gauge, n)
+	for i := range gs {
+		gs[i] = sc.Gauge(fmt.Sprintf("g%d", i))
+		gs[i].Update(float64(1000 + i))
+		gs[i].Update(float64(2000 + i))
+	}
+	tally.VerifReportOnce(root)
+	for i := range gs {
+		if i%2 == 1 {
+			gs[i].Update(float64(3000 + i))
+		}
+	}
+	tally.VerifReportOnce(root)
+	tally.VerifReportOnce(root)
+	got := map[string][]float64{}
+	alloc := map[int64]string{}
+	for _, e := range log.Snapshot() {
+		switch e.K {
+		case 2:
+			got[e.S[0]] = append(got[e.S[0]], fF(e.I[0]))
+		case 12:
+			alloc[e.I[0]] = e.S[0]
+		case 22:
+			got[alloc[e.I[0]]] = append(got[alloc[e.I[0]]], fF(e.I[1]))
+		}
+	}
+	for i := range gs {
+		want := []float64{float64(2000 + i)}
+		if i%2 == 1 {
+			want = append(want, float64(3000+i))
+		}
+		g := got[fmt.Sprintf("many.g%d", i)]
+		if fmt.Sprint(g) != fmt.Sprint(want) {
+			return fmt.Sprintf("%d gauges in one scope: gauge %d was updated to %v before the first pass and %s before the second; delivered %v, expected %v",
+				n, i, 2000+i, map[bool]string{true: fmt.Sprint(3000 + i), false: "not again"}[i%2 == 1], g, want)
+		}
+	}
+	return ""
+}
+
+// c02SlowAlloc: a cached reporter whose AllocateGauge for the name "slow" blocks until released.
+type c02SlowAlloc struct {
+	*RecCached
+	entered chan struct{}
+	release chan struct{}
+}
+
+func (r *c02SlowAlloc) AllocateGauge(name string, tags map[string]string) tally.CachedGauge {
+	if strings.HasSuffix(name, "slow") {
+		close(r.entered)
+		<-r.release
+	}
+	return r.RecCached.AllocateGauge(name, tags)
+}
+
+func c02RegDuringPass() string {
+	log := &Log{}
+	rep := &c02SlowAlloc{RecCached: &RecCached{L: log, Caps: caps{true, true}}, entered: make(chan struct{}), release: make(chan struct{})}
+	root, closer := tally.VerifNewRootScope(tally.ScopeOptions{OmitCardinalityMetrics: true, CachedReporter: rep}, 0, 1)
+	defer closer.Close()
+	sc := root.SubScope("s")
+	g := sc.Gauge("g")
+	g.Update(1)
+	tally.VerifReportOnce(root)
+	g.Update(42.5) // the last update
+	var wg sync.WaitGroup
+	wg.Add(1)
+	go func() { defer wg.Done(); sc.Gauge("slow").Update(7) }()
+	<-rep.entered // the registering goroutine holds the scope's gauge lock, inside Allocate
+	passDone := make(chan struct{})
+	go func() { tally.VerifReportOnce(root); close(passDone) }() // the first pass that starts after the last update
+	// let the pass reach the scope (it may have to wait for the lock), then let the registration finish
+	for i := 0; i < 2000; i++ {
+		runtime.Gosched()
+	}
+	time.Sleep(2 * time.Millisecond)
+	close(rep.release)
+	<-passDone
+	wg.Wait()
+	last := math.NaN()
+	alloc := map[int64]string{}
+	for _, e := range log.Snapshot() {
+		if e.K == 12 {
+			alloc[e.I[0]] = e.S[0]
+		}
+		if e.K == 22 && alloc[e.I[0]] == "s.g" {
+			last = fF(e.I[1])
+		}
+	}
+	if last != 42.5 {
+		return fmt.Sprintf("updates stopped with Update(42.5); the first pass that started afterwards ran while another gauge of the same scope was being registered; when it had completed the reporter's most recent value for the gauge was %v", last)
+	}
+	return ""
 }
 
 // c02Sink counts gauge deliveries (plain and cached interface).
